@@ -499,8 +499,10 @@ pub fn step_map<const N: usize>(
     // integrity first: nothing else may touch a container whose bounds are broken
     let len = cage.m.len();
     if !cage.intact() || len > N || cage.m.capacity() != N {
+        // a container whose bounds are broken is no ideal bounded dictionary / set either
+        let pre_full = t["s"].as_array().map(|a| a.len()).unwrap_or(0) >= N;
         fails.push(Fail {
-            props: "C03,C05,C17".into(),
+            props: format!("C03,C05,C17,{}", op_props(&t["o"], pre_full, &t["r"])),
             msg: format!("memory outside the container was written or len() = {len} exceeds capacity {N} (canaries intact: {})", cage.intact()),
         });
         return StepOut { fails, drift, fatal: true };
@@ -540,8 +542,10 @@ pub fn step_set<const N: usize>(
     let mut drift = None;
     let len = cage.m.len();
     if !cage.intact() || len > N || cage.m.capacity() != N {
+        // a container whose bounds are broken is no ideal bounded dictionary / set either
+        let pre_full = t["s"].as_array().map(|a| a.len()).unwrap_or(0) >= N;
         fails.push(Fail {
-            props: "C03,C05,C17".into(),
+            props: format!("C03,C05,C17,{}", op_props(&t["o"], pre_full, &t["r"])),
             msg: format!("memory outside the container was written or len() = {len} exceeds capacity {N} (canaries intact: {})", cage.intact()),
         });
         return StepOut { fails, drift, fatal: true };
